@@ -167,3 +167,31 @@ Example C08_mirror_adjacent_refuted :
   let m := {| ranges := [(0, 1, 1); (1, 1, 0)]; inverted := false |} in
   mapping_map {| maps := [m; invert m]; mirror := [(0, 1)]; mfrom := 0; mto := 2 |} 2 1 = Some 1.
 Proof. vm_compute. reflexivity. Qed.
+
+(* ---- nested mirror pairs: the shape rebasing (collab) and undo histories build ----
+   [Nest mp i j ms]: indices i .. j-1 of the mapping hold m1 ... mn followed by invert mn ... invert m1, and each
+   map is registered as the mirror of its inverse (Mapping.append_map(map, mirrors) /
+   Mapping.append_mapping_inverted). For ANY number of such pairs, maps with ranges at least one token apart, every
+   position and side: mapping forward through all the maps and back through all the inverses returns the position
+   - positions inside content some map deletes jump over the whole inner nest through the recover value. *)
+From Coq Require Import Lia.
+From PM Require Import Proofs.MirrorNest.
+Theorem C08_nested_mirror_roundtrip : forall ms mp p a,
+  Nest mp 0 (mto mp) ms -> mfrom mp = 0 -> mirror mp <> [] -> 0 <= p ->
+  mto mp = 2 * Z.of_nat (length ms) ->
+  mapping_map mp p a = Some p.
+Proof. exact nested_mirror_roundtrip. Qed.
+Print Assumptions C08_nested_mirror_roundtrip.
+
+(* the hypotheses are met by what Mapping.append_map builds: two maps, then their inverses with mirrors *)
+Example C08_nested_mirror_example :
+  let m1 := {| ranges := [(2, 3, 0); (8, 0, 2)]; inverted := false |} in
+  let m2 := {| ranges := [(1, 2, 1)]; inverted := false |} in
+  let mp := append_map (append_map (append_map (append_map (mk_mapping []) m1 None) m2 None)
+                          (invert m2) (Some 1)) (invert m1) (Some 0) in
+  Nest mp 0 (mto mp) [m1; m2] /\ mfrom mp = 0 /\ mirror mp <> [] /\ mto mp = 4 /\
+  mapping_map mp 4 1 = Some 4.
+Proof.
+  cbv zeta. split; [|split; [reflexivity|split; [discriminate|split; vm_compute; reflexivity]]].
+  cbn [Nest]. repeat split; try (vm_compute; reflexivity); try (vm_compute; intros H; discriminate H); try (vm_compute; lia).
+Qed.
